@@ -60,7 +60,8 @@ def gen_cases(tier: str, seed: int):
         ispec = intgen.random_int_spec(rng, k, tight=False, kinds=("constrained",))
         ispec["n_inner_step"] = int(rng.integers(2, 5))
         yield {"spec": spec, "ispec": ispec, "frac": float(np.exp(rng.uniform(np.log(0.3), np.log(4.0)))),
-               "n": int(rng.choice([1, 2, 4])), "dir": int(rng.choice([-1, 1])), "seed": [seed, int(rng.integers(0, 2**31))]}
+               "n": int(rng.choice([1, 2, 4])), "dir": int(rng.choice([-1, 1])), "seed": [seed, int(rng.integers(0, 2**31))],
+               "hostile": True}
 
 
 def run_case(case, obs) -> None:  # noqa: C901, PLR0912, PLR0915
@@ -70,7 +71,8 @@ def run_case(case, obs) -> None:  # noqa: C901, PLR0912, PLR0915
     rng = np.random.default_rng([abs(int(s)) for s in case["seed"]])
     m = zoo.Model(spec)
     q, p = m.random_point(rng)
-    eps = case["frac"] / intgen.frequency(m, q)
+    # the hostile family deliberately ignores the curvature of the manifold when sizing the step
+    eps = case["frac"] / intgen.frequency(m, q, curvature=not case.get("hostile", False))
     ispec["step_size"] = eps
     integ = zoo.make_integrator(m, ispec)
     iname = type(integ).__name__
